@@ -102,6 +102,24 @@ Proof.
   - apply incl_app; [apply incl_appl, incl_refl | apply incl_appr, IH].
 Qed.
 
+(* ---------------------------------------------------------------- SeenSet *)
+Lemma dedup_site_pinned : dedup_site_as_modelled = true.
+Proof. reflexivity. Qed.
+
+(* the duplicate check of the D-model IS _is_duplicate_output_ over the line-by-line model of SeenSet, as long as `all_seen` is off -
+   and it stays off, because the set is never asked about an empty assignment *)
+Lemma is_duplicate_dup_check R s b : ss_all s = false ->
+  is_duplicate R s b = (fst (dup_check R (ss_seen s) b), {| ss_seen := snd (dup_check R (ss_seen s) b); ss_all := false |}).
+Proof.
+  intros A. destruct s as [seen all]. cbn [ss_all ss_seen] in *. subst all. unfold is_duplicate, dup_check.
+  destruct R as [|k R].
+  - assert (E : restr [] b = []) by (unfold restr; induction b as [|kv b IH]; [reflexivity | cbn; exact IH]). now rewrite E.
+  - destruct (restr (k :: R) b) as [|kv ro]; [reflexivity|].
+    unfold ss_check, ss_add. cbn [ss_all ss_seen]. destruct (existsb (fun c => sub c (kv :: ro)) seen); reflexivity.
+Qed.
+Lemma is_duplicate_all_off R s b : ss_all s = false -> ss_all (snd (is_duplicate R s b)) = false.
+Proof. intros A. now rewrite (is_duplicate_dup_check R s b A). Qed.
+
 (* ---------------------------------------------------------------- the section *)
 Section DF.
   Variable h : heap.
